@@ -87,7 +87,7 @@ func c04Heartbeat(s shape, r *vx.Rand) {
 func runC04() {
 	nShapes := 1500
 	if run.Thorough() {
-		nShapes = 30000
+		nShapes = 26000
 	}
 	nShapes = scaled(nShapes)
 	kinds := []string{"split", "EpochNotMatch", "NotLeader", "ServerIsBusy", "StaleCommand"}
